@@ -411,6 +411,9 @@ impl Ctx<'_> {
                             self.img.write_at(self.lay.clu_off(*c) + (hi - lo) as u64, &junk);
                         }
                     }
+                    // "recsize": the size field of the entry says more than the chain holds (what a crash or a careless writer leaves on a
+                    // volume that is then marked dirty): NOT a valid volume, used only where a property does not presuppose validity
+                    let size = u(e, "recsize", size);
                     slots.push(sfn_slot(&raw, attr, nt, chain.first().copied().unwrap_or(0), size, ct, mt, ad));
                     self.ea_word(e, slots.last_mut().unwrap());
                     self.truth.push(json!({"p": p, "k": "f", "at": attr, "sz": size, "ct": decode_dt(ct.0, ct.1, ct.2), "mt": decode_dt(mt.0, mt.1, 0),
